@@ -50,10 +50,14 @@ fn summ_float<T: F>(case: &Value, out: &mut Vec<Value>) {
     let p = case.get("p").and_then(|x| x.as_i64()).unwrap_or(2) as u16;
     let shape = shape_of(case, r.len());
     let axis = case.get("axis").and_then(|x| x.as_i64()).unwrap_or(0) as usize;
+    let sexp = case.get("sexp").and_then(|x| x.as_i64()).unwrap_or(0) as i32;
+    let scale = (2.0f64).powi(sexp);
     let xs: Vec<T> = match stat {
         "geometric" => r.iter().map(|&e| T::f((2.0f64).powi(e as i32))).collect(),
-        _ => r.iter().map(|&v| T::f(base + v as f64 / s)).collect(),
+        _ => r.iter().map(|&v| T::f((base + v as f64 / s) * scale)).collect(),
     };
+    // mu_p of the scaled data divided by 2^(p*sexp) (exact) is mu_p of the unscaled data
+    let unscale = |v: T, pw: i32| -> T { T::f(v.g() * (2.0f64).powi(-pw * sexp)) };
     let a = lay_of(case, "lay1", &shape).build(&xs, |_| T::f(-777.0));
     let l1 = lay_of(case, "lay1", &shape);
     let av = l1.view(&a);
@@ -67,11 +71,11 @@ fn summ_float<T: F>(case: &Value, out: &mut Vec<Value>) {
         "mean" => res_json(guarded(|| SummaryStatisticsExt::mean(&av)), |v| q(v, base)),
         "harmonic" => res_json(guarded(|| av.harmonic_mean()), |v| q(v, 0.0)),
         "geometric" => res_json(guarded(|| av.geometric_mean()), |v| quant(v.g().log2(), qe)),
-        "moment" => res_json(guarded(|| av.central_moment(p)), |v| json!({"q": q(v, 0.0), "one": v.g().to_bits() == 1.0f64.to_bits() || v == T::one(), "zero": v == T::zero()})),
+        "moment" => res_json(guarded(|| av.central_moment(p)), |v| json!({"q": q(unscale(v, p as i32), 0.0), "one": v.g().to_bits() == 1.0f64.to_bits() || v == T::one(), "zero": v == T::zero()})),
         "moments" => res_json(guarded(|| av.central_moments(p)), |v| {
             // C18: central_moments(p)[k] against central_moment(k), bit for bit
             let singles: Vec<T> = (0..=p).map(|k| av.central_moment(k).unwrap()).collect();
-            json!({"q": v.iter().map(|&x| q(x, 0.0)).collect::<Vec<_>>(),
+            json!({"q": v.iter().enumerate().map(|(k, &x)| q(unscale(x, k as i32), 0.0)).collect::<Vec<_>>(),
                    "bits": v.iter().map(|&x| bits3(x.g())).collect::<Vec<_>>(),
                    "single_bits": singles.iter().map(|&x| bits3(x.g())).collect::<Vec<_>>()}) }),
         "skew" => res_json(guarded(|| av.skewness()), |v| json!({"q": quant(v.g() * v.g(), qe), "sgn": if v > T::zero() { 1 } else if v < T::zero() { -1 } else { 0 }})),
@@ -365,25 +369,29 @@ pub fn gen(seed: u64, count: usize, tier: &str, params: &Params) -> Vec<Value> {
         match *rng.pick(&kinds) {
             "c06" => {
                 let stat = *rng.pick(&["mean", "mean", "wsum", "wmean", "harmonic", "geometric", "wsum_axis", "wmean_axis", "mean_int", "wsum_int", "wmean_int"]);
-                let n = rng.range(1, if big { 12 } else { 8 }) as usize;
+                // now and then a long array (blocked / unrolled accumulation has its corner cases beyond a block length)
+                let long = rng.chance(1, 10) && matches!(stat, "mean" | "wsum" | "wmean" | "mean_int" | "wsum_int" | "wmean_int" | "geometric" | "harmonic");
+                let n = if long { *rng.pick(&[127usize, 128, 129, 130, 131, 255, 257, 300]) } else { rng.range(1, if big { 12 } else { 8 }) as usize };
                 let ty = if stat.ends_with("_int") { *rng.pick(&["i32", "i64", "u8"]) } else { *rng.pick(&["f64", "f64", "f32"]) };
                 let f32ty = ty == "f32";
-                let shape = random_shape(&mut rng, n);
+                // u8 can neither hold an element count above 255 nor larger sums: stay inside the property's no-overflow domain
+                let n = if ty == "u8" && n > 131 { 131 } else { n };
+                let shape = if long { vec![n] } else { random_shape(&mut rng, n) };
                 let (lay1, lay2) = two_lays(&mut rng, &shape);
-                let rmax = if ty == "u8" { 10 } else { 40 };
+                let rmax = if ty == "u8" { if long { 1 } else { 10 } } else if long { 8 } else { 40 };
                 let gstyle = rng.below(4);
-                let glim: i64 = if f32ty { 40 } else { 300 };
+                let glim: i64 = if f32ty { 120 } else { 1000 };
                 let mut r: Vec<i64> = (0..n).map(|_| match stat { "harmonic" => rng.range(1, 8),
                                                                "geometric" => match gstyle { 1 => rng.range(glim - glim / 5, glim), 2 => rng.range(-glim, -glim + glim / 5), _ => rng.range(-glim, glim) },
                                                                _ => if ty == "u8" { rng.range(0, rmax) } else { rng.range(-rmax, rmax) } }).collect();
                 if stat == "geometric" && gstyle == 3 { r.sort(); r.reverse(); }
                 let axis = rng.below(shape.len() as u64) as usize;
                 let wl = if stat.ends_with("_axis") { shape[axis] } else { n };
-                let mut w: Vec<i64> = (0..wl).map(|_| rng.range(0, 4)).collect();
+                let mut w: Vec<i64> = (0..wl).map(|_| rng.range(0, if ty == "u8" && long { 1 } else { 4 })).collect();
                 if w.iter().sum::<i64>() == 0 { w[0] = 1; }
-                let bexp = if matches!(stat, "mean" | "wmean" | "wmean_axis") && !f32ty { *rng.pick(&[-1i64, -1, 10, 20, 30]) } else { -1 };
+                let bexp = if matches!(stat, "mean" | "wmean" | "wmean_axis") && !f32ty && !long { *rng.pick(&[-1i64, -1, 10, 20, 30]) } else { -1 };
                 cases.push(json!({"ev": "summ", "stat": stat, "ty": ty, "r": r, "w": w, "S": if stat == "harmonic" || stat.ends_with("_int") { 1 } else { 4 }, "WS": *rng.pick(&[1i64, 4]),
-                                  "bexp": bexp, "qe": if f32ty { 8 } else { 14 }, "tol": 2, "shape": shape, "axis": axis, "lay1": lay1, "lay2": lay2,
+                                  "bexp": bexp, "qe": if f32ty { 8 } else if long { 10 } else { 14 }, "tol": 2, "shape": shape, "axis": axis, "lay1": lay1, "lay2": lay2,
                                   "wlay": *rng.pick(&["plain", "rev", "step"])}));
             }
             "c07" => {
@@ -416,10 +424,24 @@ pub fn gen(seed: u64, count: usize, tier: &str, params: &Params) -> Vec<Value> {
                         let shape = random_shape(&mut rng, n);
                         let (lay1, lay2) = two_lays(&mut rng, &shape);
                         let bexp = if f32ty || p > 4 { -1 } else { *rng.pick(&[-1i64, -1, 20, 30, 40, 45]) };
-                        cases.push(json!({"ev": "summ", "stat": stat, "ty": ty, "r": r, "w": [], "S": 1, "WS": 1, "p": p, "bexp": bexp,
+                        // scale by an exact power of two: skewness and kurtosis are scale-invariant, mu_p scales by 2^(p*sexp)
+                        let sexp: i64 = if bexp >= 0 { 0 } else if f32ty { *rng.pick(&[0i64, 0, 24, -28]) } else { *rng.pick(&[0i64, 0, 60, 180, -180]) };
+                        let sexp = if (stat == "moment" || stat == "moments") && p as i64 * sexp.abs() > 900 { 0 } else if (stat == "moment" || stat == "moments") && f32ty && p as i64 * sexp.abs() > 100 { 0 } else { sexp };
+                        cases.push(json!({"ev": "summ", "stat": stat, "ty": ty, "r": r, "w": [], "S": 1, "WS": 1, "p": p, "bexp": bexp, "sexp": sexp,
                                           "qe": if f32ty { qe.min(6) } else { qe }, "tol": if p <= 3 && !f32ty { 1 } else { 2 }, "shape": shape, "axis": 0, "lay1": lay1, "lay2": lay2}));
                     }
                 }
+            }
+            "c18big" => {
+                // bulk vs single central moments where the sums overflow (finite data near the top of the range, or an infinity):
+                // only the bit-for-bit agreement of the two routines is judged (C18)
+                let n = rng.range(2, 5) as usize;
+                let r: Vec<i64> = (0..n).map(|_| rng.range(1, 3)).collect();
+                let shape = random_shape(&mut rng, n);
+                let (lay1, lay2) = two_lays(&mut rng, &shape);
+                let ty = *rng.pick(&["f64", "f32"]);
+                cases.push(json!({"ev": "summ", "stat": "moments", "ty": ty, "r": r, "w": [], "S": 1, "WS": 1, "p": rng.range(0, 4), "bexp": -1,
+                                  "sexp": if ty == "f32" { 126 } else { 1022 }, "qe": 2, "tol": 2, "shape": shape, "axis": 0, "lay1": lay1, "lay2": lay2}));
             }
             "corr" => {
                 let nv = rng.range(1, 4) as usize;
@@ -432,7 +454,7 @@ pub fn gen(seed: u64, count: usize, tier: &str, params: &Params) -> Vec<Value> {
                 let lay = random_lay(&mut rng, &[nv, no], fancy);
                 let ty = *rng.pick(&["f64", "f64", "f32"]);
                 let sexp = if ty == "f32" { *rng.pick(&[1i64, 10, 40, -30]) } else { *rng.pick(&[1i64, 20, 200, 400, -300]) };
-                cases.push(json!({"ev": "corr", "ty": ty, "rows": rows, "S": 1, "d": rng.range(0, 2), "bexp": if ty == "f32" { -1 } else { *rng.pick(&[-1i64, -1, 10, 20]) },
+                cases.push(json!({"ev": "corr", "ty": ty, "rows": rows, "S": 1, "d": rng.range(0, 2), "bexp": if ty == "f32" { *rng.pick(&[-1i64, -1, 8]) } else { *rng.pick(&[-1i64, 10, 20, 26, 30]) },
                                   "qe": 6, "tol": 2, "k": rng.below(nv as u64), "sexp": sexp, "lay1": lay.to_json()}));
             }
             "dev" if rng.chance(1, 6) => {
